@@ -1,14 +1,18 @@
 import Driver.Common
 import LiskVerif.Model.Generator
+import LiskVerif.Model.Boundary
 
 /-! Line-protocol driver for C15 (pkg/generator). See /verif/harness/c15/c15.go for the protocol. -/
 
 namespace Driver.Generator
-open LiskVerif LiskVerif.Generator
+open LiskVerif LiskVerif.Generator LiskVerif.Boundary
 
 structure DSt where
   gs : GState := {}
   maxSize : Nat := 0
+  /-- payload limit of the node's block verification (`reset chain … vmax=`; the node harness keeps the
+  engine default of 15 KiB without the key) -/
+  verMax : Nat := 15360
 
 /-- `s:n:f:p:z:v:e` — sender, nonce, fee, (parameter padding, ignored), size, verify byte, execute byte -/
 def parseTx (id : Nat) (s : String) : Option Tx :=
@@ -50,6 +54,9 @@ def addr (v : Nat) : Bytes := [UInt8.ofNat v]
 def forgeOp (d : DSt) (v : Nat) (txs : List Tx) (o : Outcome) : DSt × String :=
   let h := mkHeader addr d.gs v
   let sel := select okMock d.maxSize txs
+  -- the payload rule of `verifyBlock` (Model/Boundary.lean `payloadVerdict`): a block above the verifier's
+  -- limit is handed on but not applied (only reachable when `vmax` is below `maxsize`)
+  let o := if o == .applied && (payloadVerdict d.verMax sel).isSome then Outcome.dropped else o
   let gs' := applyOp .fixed addr d.gs (.forge v o 0)
   let acc := if o == .applied then "1" else "0"
   ({ d with gs := gs' },
@@ -61,7 +68,17 @@ def step (d : DSt) (w : List String) : DSt × String :=
   | "reset" :: "sel" :: _ => ({}, "ok")
   | "reset" :: "chain" :: rest =>
     match kvNat "maxsize" rest with
-    | some m => ({ maxSize := m }, "ok")
+    | some m =>
+      let vm := match kvNat "vmax" rest with
+        | some x => if x == 0 then 15360 else x
+        | none => 15360
+      ({ maxSize := m, verMax := vm }, "ok")
+    | none => bad
+  | ["vprobe", _, txs] =>
+    -- a block of another generator carrying the whole pool, given to `verifyBlock` only
+    match parseTxs txs with
+    | some txs =>
+      (d, s!"vprobe total={payloadTotal txs} acc={if (payloadVerdict d.verMax txs).isSome then 0 else 1}")
     | none => bad
   | ["sel", m, txs] =>
     match m.toNat?, parseTxs txs with
